@@ -267,6 +267,23 @@ theorem admitted_resolved_exactly_once_every_end (e : End) (dl : Bool) (o : Http
     cases e <;> cases dl <;> first | contradiction | decide
   · simp [httpServe, httpFails, HttpOutcome.lastCode, HttpOutcome.wire]
 
+/-- **The call-site monitors never fire on the model** (what DriverH's `callSiteMonitor`, the classification clause and the
+SheddingStat clause check on the real wrappers): an admitted request is resolved exactly once and not early, a refused one
+is neither handled nor resolved and gets 503 / ResourceExhausted, Allow is asked once, and the counters are
+total +1, pass +1 exactly with a Pass, drop +1 exactly with a refusal. -/
+theorem callsite_monitor_sound (allowed : Bool) (o : HttpOutcome) (dl pn : Bool) :
+    let h := httpServe false allowed o
+    let r := rpcServe allowed dl pn
+    (allowed = true → h.res.length = 1 ∧ h.early = 0 ∧ r.res.length = 1 ∧ r.early = 0
+        ∧ (h.res = [Res.fail] ↔ httpFails o.lastCode = true) ∧ (r.res = [Res.fail] ↔ rpcFails dl pn = true))
+    ∧ (allowed = false → h.res = [] ∧ h.ran = false ∧ h.status = 503 ∧ r.res = [] ∧ r.ran = false ∧ r.status = 8)
+    ∧ h.asked = 1 ∧ r.asked = 1 ∧ h.stat.total = 1 ∧ r.stat.total = 1
+    ∧ h.stat.pass = (h.res.filter (· = Res.pass)).length ∧ r.stat.pass = (r.res.filter (· = Res.pass)).length
+    ∧ h.stat.drop = (if allowed then 0 else 1) ∧ r.stat.drop = (if allowed then 0 else 1) := by
+  cases allowed <;> cases hf : httpFails o.lastCode <;> cases hr : rpcFails dl pn <;>
+    simp [httpServe, rpcServe, hf, hr, statusServiceUnavailable, codeResourceExhausted]
+
+
 /-! ### the server: call site → wrapper → shedder, every history -/
 
 theorem hstep_outstanding (h : HSt) (op : HOp) (h' : HSt) (v : Option Verdict) (hs : hstep h op = some (h', v)) :
@@ -533,6 +550,8 @@ example : ((routeShedder true (newEngine true 0 1) true).isNone && (routeShedder
     && (match routeShedder true (newEngine true 900 1) true with | some (.adaptive s) => decide (s.cpuThreshold = 950) | _ => false))
     = true := by
   decide +kernel
+-- the counters the call-site monitor compares
+example : (httpServe false true { code := 503 }).stat = ⟨1, 0, 0⟩ ∧ (rpcServe false true false).stat = ⟨1, 0, 1⟩ := by decide
 -- a server: three requests arrive, one ends in a panic after 500, one with 503, the third stays in its handler
 def exServer : List SOp :=
   [.arrive false 0, .arrive true 950, .arrive false 0, .advance 3000000,
